@@ -1380,28 +1380,28 @@ macro_rules! define_gfgen { ($typename:ident, $fieldparams:ident, $submod:ident,
                 // representation) yield d0*k in normal representation.
                 // Moreover, thalf = 2^(16*N), which is the Montgomery
                 // representation of 1/2^(16*N).
-                let mut e = (s1 * self - s0) * thalf - k;
+                let e0 = (s1 * self - s0) * thalf;
                 let mut one = Self::ZERO;
                 one.0[0] = 1;
                 let mut minus_one = Self(Self::MODULUS);
                 minus_one.0[0] &= !1u32;
+                // We try b = 0 first: for a tiny k (0, 1 or -1) several
+                // pairs (a, b) satisfy the equation, and only the one
+                // with b = 0 corresponds to the (untruncated) values.
                 let mut a = -100i32;
-                let mut b = -1i32;
-                for _ in 0..3 {
+                let mut b = 0i32;
+                for (bb, e) in [(0i32, e0), (-1i32, e0 - k), (1i32, e0 + k)] {
                     if e.iszero() != 0 {
                         a = 0;
-                        break;
-                    }
-                    if e.equals(one) != 0 {
+                    } else if e.equals(one) != 0 {
                         a = 1;
-                        break;
-                    }
-                    if e.equals(minus_one) != 0 {
+                    } else if e.equals(minus_one) != 0 {
                         a = -1;
-                        break;
+                    } else {
+                        continue;
                     }
-                    e += k;
-                    b += 1;
+                    b = bb;
+                    break;
                 }
                 assert!(a != -100);
 
